@@ -92,6 +92,12 @@ def run(tier: str, rep: Report):
         k = 0
         for v in SUPPORTED:
             jobs[v] += shape_jobs(shapes, wd, v, files, 100000)
+            # integers by digit count: 2**53 has 16 digits; str()/int() refuse more than 4300 digits; then every 500
+            lens = [15, 16, 17, 18, 100, 4299, 4300, 4301, 4302] + [m * 500 + d for m in range(9, 27 if tier == "quick" else 61) for d in (-1, 0, 1)]
+            for ci, ch in enumerate(chunks(lens, 12)):
+                f = str(wd / f"bigint-{v}-{ci}.ndjson")
+                files.append(f)
+                jobs[v].append(("jsonw.bigints_to_file", {"lengths": ch, "path": f}))
             for ch in chunks(terms, 60):
                 k += 1
                 f = str(wd / f"terms-{v}-{k}.ndjson")
